@@ -1176,6 +1176,9 @@ class H2Connection:
         if origin is not None and stream_id is not None:
             raise ValueError("Must not provide both origin and stream_id")
 
+        if origin is None and stream_id is None:
+            raise ValueError("Must provide one of origin and stream_id")
+
         self.state_machine.process_input(
             ConnectionInputs.SEND_ALTERNATIVE_SERVICE
         )
